@@ -200,6 +200,11 @@ class TileManager(object):
         for tile in tiles:
             if self._is_tile_missing(tile, cache_only, dimensions=dimensions):
                 uncached_tiles.append(tile)
+            elif tile.is_missing():
+                # the tile was stored by a concurrent request after load_tiles() above
+                # (is_cached() of e.g. the file cache only checks for existence): load it now
+                if not self.cache.load_tile(tile, with_metadata, dimensions=dimensions):
+                    uncached_tiles.append(tile)
 
         if uncached_tiles:
             creator = self.creator(dimensions=dimensions)
